@@ -39,6 +39,8 @@ type Frame struct {
 	Cols     int     `json:"cols,omitempty"`
 	Rows     int     `json:"rows,omitempty"`
 	Scribble []Scrib `json:"scribble,omitempty"`
+	// ByRefresh: the call that notices the new size is Refresh, not Render
+	ByRefresh bool `json:"by_refresh,omitempty"`
 }
 
 type Case struct {
@@ -92,6 +94,8 @@ func ApplyVaxis(vx *vaxis.Vaxis, op Op) {
 		}
 		w, _ := win.Size()
 		win.New(op.Col, op.Row, w-op.Col, 1).Print(vaxis.Segment{Text: text, Style: op.Style.Vaxis()})
+	case "pointer":
+		vx.SetMouseShape(vaxis.MouseShape(op.Text[0]))
 	case "show":
 		vx.ShowCursor(op.Col, op.Row, vaxis.CursorStyle(op.Shape))
 	case "hide":
@@ -107,7 +111,12 @@ func GenOps(rt *rapid.T, m *model.Mirror, cw *cursorWant, tc model.TermConfig, s
 	var ops []Op
 	for i := 0; i < n; i++ {
 		var op Op
-		switch rapid.IntRange(0, 15).Draw(rt, "op") {
+		switch rapid.IntRange(0, 16).Draw(rt, "op") {
+		case 16:
+			// the pointer shape is not part of the screen, but its escape
+			// sequence shares the frame's byte stream with the cells and
+			// the cursor
+			op = Op{Kind: "pointer", Text: []string{rapid.SampledFrom([]string{"default", "pointer", "text", "wait"}).Draw(rt, "pointer")}}
 		case 0:
 			op = Op{Kind: "clear"}
 		case 1:
@@ -233,6 +242,7 @@ func GenCaseFor(rt *rapid.T, fixed *refterm.Caps, resizes bool) Case {
 			f.End = "resize"
 			f.Scribble = GenScribble(rt, m.Cols, m.Rows)
 			f.Cols, f.Rows = rapid.IntRange(1, 12).Draw(rt, "ncols"), rapid.IntRange(1, 6).Draw(rt, "nrows")
+			f.ByRefresh = rapid.IntRange(0, 2).Draw(rt, "noticed-by-refresh") == 1
 			// drawing done in this frame is discarded by the resize
 			if f.Cols != m.Cols || f.Rows != m.Rows {
 				m = model.NewMirror(f.Cols, f.Rows)
@@ -262,6 +272,9 @@ func Classify(sub string, c Case) {
 			harness.R.Label(sub, "op:"+op.Kind)
 		}
 		harness.R.Label(sub, "end:"+f.End)
+		if f.End == "resize" && f.ByRefresh {
+			harness.R.Label(sub, "size change noticed by Refresh")
+		}
 		if f.End == "resize" {
 			if f.Cols != m.Cols || f.Rows != m.Rows {
 				m = model.NewMirror(f.Cols, f.Rows)
